@@ -25,7 +25,7 @@ func init() {
 			return 7200
 		},
 		Run:      runC02,
-		Required: []string{"epochs", "epochs.parallel", "epochs.multi_species", "species.founded", "species.survived", "species.extinct"},
+		Required: []string{"epochs", "epochs.parallel", "epochs.multi_species", "species.founded", "species.survived", "species.extinct", "scenarios.large_genomes"},
 	})
 }
 
@@ -33,6 +33,18 @@ func runC02(c *Ctx, idx int) {
 	sc := genScenario(c.G, true)
 	// make the fitness shapes of the statement appear evenly
 	sc.Fitness = idx % fitShapes
+	if idx%32 == 9 {
+		// a small population spawned from a long-evolved genome (more than 500 nodes), a few epochs
+		sc.Ctor, sc.Start, sc.StartSrc = ctorSpawn, buildFromSnap(largeGenomeSnap(c.G)), "built: >500 nodes"
+		sc.Opts.PopSize = 3 + c.G.Intn(4)
+		sc.Opts.BabiesStolen = 0
+		sc.Epochs = 3 + c.G.Intn(3)
+		sc.RestoreAt = 0
+		if c.G.Intn(2) == 0 {
+			sc.RestoreAt = 2
+		}
+		c.Count("scenarios.large_genomes", 1)
+	}
 	mon := &popMonitor{seenSpecies: map[int]*genetics.Species{}}
 	runScenario(c, sc, mon)
 }
